@@ -28,7 +28,7 @@ import ast
 
 from ..cfg import cfg_of, origins
 from ..idioms import component_origins, conditions_at
-from ..index import FuncNode, arg_of, call_name, last_attr, norm, short, walk_local, calls_in
+from ..index import AnalysisError, FuncNode, arg_of, call_name, last_attr, norm, short, walk_local, calls_in
 from ..quals import KindInterp, NEUTRAL, TOP, BOT, Seq, Tup, combine, is_known, join
 
 DISC = "src/sqlfluff/core/linter/discovery.py"
@@ -123,8 +123,56 @@ class PathKinds(KindInterp):
         return None
 
 
+CFILE = "src/sqlfluff/core/config/file.py"
+
+
+def _r25k(chk, repo) -> None:
+    """Writer/reader table agreement: the config loader rewrites the *value* of every key whose name ends in one
+    of RESOLVE_PATH_SUFFIXES (or is listed in COMMA_SEPARATED_PATH_KEYS) into an absolute filesystem path; the
+    discovery code reads the keys below from the same loaded dict as gitignore-style *patterns*."""
+    cm = repo.mod(CFILE)
+    consts = {}
+    for st in cm.tree.body:
+        tgt = st.targets[0] if isinstance(st, ast.Assign) and len(st.targets) == 1 else (st.target if isinstance(st, ast.AnnAssign) else None)
+        if isinstance(tgt, ast.Name) and tgt.id in ("RESOLVE_PATH_SUFFIXES", "COMMA_SEPARATED_PATH_KEYS") and st.value is not None:
+            try:
+                consts[tgt.id] = tuple(ast.literal_eval(st.value))
+            except Exception:
+                raise AnalysisError(f"R25k: {tgt.id} in config/file.py is no longer a literal; re-confirm the anchor by hand")
+    if set(consts) != {"RESOLVE_PATH_SUFFIXES", "COMMA_SEPARATED_PATH_KEYS"}:
+        raise AnalysisError("R25k: RESOLVE_PATH_SUFFIXES / COMMA_SEPARATED_PATH_KEYS not found in config/file.py; re-confirm the anchor by hand")
+    uses = [n for n in ast.walk(cm.tree) if isinstance(n, ast.Name) and n.id in consts and isinstance(n.ctx, ast.Load)]
+    chk.count("R25k.table_uses", len(uses))
+    dm = repo.mod(DISC)
+    keys = []
+    for fn in [f for f in ast.walk(dm.tree) if isinstance(f, FuncNode)]:
+        if not any(isinstance(c, ast.Call) and last_attr(c) == "load_config_file_as_dict" for c in ast.walk(fn)):
+            continue
+        for c in ast.walk(fn):
+            if isinstance(c, ast.Call) and isinstance(c.func, ast.Attribute) and c.func.attr == "get" and c.args and isinstance(c.args[0], ast.Constant) and isinstance(c.args[0].value, str):
+                keys.append((c.args[0].value, c))
+            elif isinstance(c, ast.Subscript) and isinstance(c.slice, ast.Constant) and isinstance(c.slice.value, str) and isinstance(c.ctx, ast.Load):
+                keys.append((c.slice.value, c))
+    chk.count("R25k.pattern_keys", len(keys))
+    sfx = tuple(x.lower() for x in consts["RESOLVE_PATH_SUFFIXES"])
+    listed = {x.lower() for x in consts["COMMA_SEPARATED_PATH_KEYS"]}
+    for k, node in keys:
+        hit = next((x for x in sfx if k.lower().endswith(x)), None) or (k.lower() if k.lower() in listed else None)
+        chk.require(
+            hit is None, "R25k", node,
+            f"file discovery reads the config key '{k}' as ignore patterns, but the config loader treats it as a path to resolve (it matches {hit!r} of RESOLVE_PATH_SUFFIXES / "
+            "COMMA_SEPARATED_PATH_KEYS in config/file.py): a pattern that names something existing next to the config file is replaced by an absolute path, which no relative "
+            "path ever matches -- the files it names are linted under every spelling",
+            detail=f"discovery key '{k}' is not path-resolved by the loader", construct=f"{DISC}::config key '{k}'",
+        )
+    chk.floor("R25k.pattern_keys", 2)
+    chk.floor("R25k.table_uses", 2)
+
+
 def run(chk) -> None:
     repo = chk.repo
+    chk.rule("R25k", "the config keys file discovery reads as ignore patterns are none of the keys whose values the config loader rewrites into resolved filesystem paths (RESOLVE_PATH_SUFFIXES / COMMA_SEPARATED_PATH_KEYS of config/file.py, evaluated from their literals)")
+    _r25k(chk, repo)
     disc = repo.mod(DISC)
     hfile = repo.mod(HFILE)
     chk.rule("R25a", "no comparison (==, !=, in, startswith, remove/index) in file discovery mixes an absolutised path with a path in the caller's spelling")
@@ -728,6 +776,24 @@ def _r25d(chk, repo) -> None:
 from ..selftest import Variant  # noqa: E402
 
 VARIANTS = [
+    Variant(
+        "r25k-plural-suffix-resolved", CFILE,
+        'RESOLVE_PATH_SUFFIXES = ("_path", "_dir")\n',
+        'RESOLVE_PATH_SUFFIXES = ("_path", "_paths", "_dir", "_dirs")\n',
+        "R25k", "config key 'ignore_paths'", "seeded C25-9",
+    ),
+    Variant(
+        "r25k-ignore-paths-listed-as-path-key", CFILE,
+        '    "exclude_macros_from_path",\n)\n',
+        '    "exclude_macros_from_path",\n    "ignore_paths",\n)\n',
+        "R25k", "config key 'ignore_paths'", "each comma-separated pattern resolved against the config directory",
+    ),
+    Variant(
+        "quiet-r25k-another-path-suffix", CFILE,
+        'RESOLVE_PATH_SUFFIXES = ("_path", "_dir")\n',
+        'RESOLVE_PATH_SUFFIXES = ("_path", "_dir", "_directory")\n',
+        "QUIET", None, "R25k: a suffix that no discovery key carries",
+    ),
     Variant(
         "quiet-prune-by-slice-assigned-filter", DISC,
         "        for subdir in subdirs[:]:  # slice it so that we can modify it in the process.\n            # NOTE: The \"*\" in this next section is a bit of a hack, but pathspec\n            # doesn't like matching _directories_ directly, but if we instead match\n            # `directory/*` we get the same effect.\n            absolute_path = os.path.abspath(os.path.join(dirname, subdir, \"*\"))\n            if _check_ignore_specs(\n                absolute_path, outer_ignore_specs\n            ) or _check_ignore_specs(absolute_path, inner_ignore_specs):\n                subdirs.remove(subdir)\n                continue\n",
